@@ -114,7 +114,7 @@ func (i *interpreter) fsLookup(path value) *fsFile {
 func (i *interpreter) fsIsDir(path value) bool {
 	if c, ok := path.(string); ok {
 		c = strings.TrimRight(c, "/")
-		if i.fs().dirs[c] || c == "" {
+		if i.fs().dirs[c] && c != "" {
 			return true
 		}
 	}
